@@ -59,7 +59,7 @@ package main
 //@   ensures @exact {C17} result1 == nil ==> result0 == "" || result0 == hexof(sha256of(ghost.rall))
 // the output: standard output for "-", else the file named by the -out template. Creating it may truncate a file (the
 // cache file itself if the user names it: os.Create's contract covers that, an empty file is never taken for a cache)
-//@ func openOutput(goarch string) (io.WriteCloser, error)
+//@ func openOutput(goarch string) (io.WriteCloser, error)   properties C17 C18
 //@   modifies outFile, ghost.disk, ghost.tmp
 //@   ensures @cache_kept_or_emptied ghost.disk == old(ghost.disk) || ghost.disk == ""
 // the generated Go file (-format code) is rendered from exactly the list and architecture main computed
